@@ -45,3 +45,14 @@ Example C14_nonvacuous :
                                 (s "a.proto", SFlatten); (s "a.proto", SOneofDiscriminator); (s "a.proto", SHttp); (s "a.proto", SHttpBinding); (s "a.proto", SHttpConfig)] /\
   client_has nv14 (s "p.Nums") CInt64 = true /\ client_has nv14 (s "p.Person.Inner") CNullable = true.
 Proof. exact C14_nonvacuous_lemma. Qed.
+
+(* nested declarations: every collector walks the messages declared inside an annotated message too
+   (the flat pre-order message list of a file holds them), on both sides, in the same order *)
+Example C14_nested_declarations :
+  forall f, In f (gen_files w_nested) ->
+    client_contexts w_nested f CTimestamp = [s "p.Event"; s "p.Event.Occurrence"; s "p.Event.Occurrence.Detail"; s "p.Audit.Entry"] /\
+    http_contexts w_nested f CTimestamp = client_contexts w_nested f CTimestamp /\
+    context_types false w_nested f CTimestamp = [s "Event"; s "Event_Occurrence"; s "Event_Occurrence_Detail"; s "Audit_Entry"] /\
+    context_types true w_nested f CTimestamp = context_types false w_nested f CTimestamp /\
+    defects_C14 w_nested = [].
+Proof. exact C14_nested_declarations_lemma. Qed.
